@@ -97,6 +97,17 @@ CLAIMED = {
               'stack / alists not yet covered; OS state outside'),
         technique='CBMC single inductive step from arbitrary invariant-satisfying state',
         design='3/C13'),
+    'C19': dict(
+        text=('Bounded model checking of lib/tzraw.c:zif_open on file images of each exact size (heap object of '
+              'exactly that size, content symbolic, header counts enumerated over small, zero and overflow-provoking '
+              'values, v1 and v2 layouts): every read stays inside the image and every write inside the allocation '
+              '(cbmc pointer/bounds checks incl. pointer overflow), and a returned object satisfies the table '
+              'invariant (sorted transitions, type index < nty, nty > 0) under which C12 verifies the lookups.'),
+        note=('open/fstat/mmap/munmap/close stubbed; header counts concrete per query (a symbolic allocation size '
+              'needs 65 GB in cbmc); images <= 98 bytes quick / 128 thorough; zone map (tzmap) compiler and lookup '
+              'not yet covered; the unchecked loader was a defect, fixed'),
+        technique='CBMC memory-safety checking of the TZif loader on symbolic file images',
+        design='3/C19'),
 }
 
 NA = {}
